@@ -271,15 +271,16 @@ static void print_state (const char *status)
       }
     *q = 0;
   }
-  char pf[64], pa[24], pb[24];
+  char pf[128], pa[56], pb[56];
+  /* <ref>.<func_ref> of both programs */
   if (!uobj_prog || poisoned (uobj_prog))
-    snprintf (pa, sizeof pa, "x");
+    snprintf (pa, sizeof pa, "x.x");
   else
-    snprintf (pa, sizeof pa, "%lu", (unsigned long) uobj_prog->ref);
+    snprintf (pa, sizeof pa, "%lu.%lu", (unsigned long) uobj_prog->ref, (unsigned long) uobj_prog->func_ref);
   if (!base_prog || poisoned (base_prog))
-    snprintf (pb, sizeof pb, "x");
+    snprintf (pb, sizeof pb, "x.x");
   else
-    snprintf (pb, sizeof pb, "%lu", (unsigned long) base_prog->ref);
+    snprintf (pb, sizeof pb, "%lu.%lu", (unsigned long) base_prog->ref, (unsigned long) base_prog->func_ref);
   snprintf (pf, sizeof pf, "%s/%s", pa, pb);
   if (fault_first)
     {
@@ -664,6 +665,8 @@ static int applicable (int n, char **t, int *a)
     return n == 3 && SL (a[1]);
   if (!strcmp (op, "newfun"))
     return n == 4 && SL (a[1]) && SL (a[3]) && objok (a[2]) && !objkind[a[2]];
+  if (!strcmp (op, "newffun"))
+    return n == 4 && lpc_mode && SL (a[1]) && objok (a[2]) && !objkind[a[2]] && a[3] >= 0 && a[3] < 6;
   if (!strcmp (op, "newobjr"))
     return n == 3 && a[1] >= 0 && a[1] < NOBJ && a[2] >= 0 && a[2] < NLAY && !hobj (a[1]) && !exist_used[a[1]];
   if (!strcmp (op, "replace"))
@@ -938,7 +941,7 @@ static int c06_cmd (char *line)
   {
     static const struct { const char *op; int pos[3]; } uses[] = {
       {"newarr", {1, 0, 0}}, {"newmap", {1, 0, 0}}, {"newcls", {1, 0, 0}}, {"newbuf", {1, 0, 0}},
-      {"newstr", {1, 0, 0}}, {"newmstr", {1, 0, 0}}, {"free", {1, 0, 0}}, {"newfun", {1, 3, 0}},
+      {"newstr", {1, 0, 0}}, {"newmstr", {1, 0, 0}}, {"newffun", {1, 0, 0}}, {"free", {1, 0, 0}}, {"newfun", {1, 3, 0}},
       {"fill", {1, 3, 0}}, {"assign", {1, 2, 0}}, {"aset", {1, 3, 0}}, {"aget", {1, 2, 0}},
       {"mset", {1, 2, 3}}, {"mdel", {1, 2, 0}}, {"push", {1, 0, 0}}, {"popto", {1, 0, 0}},
       {"setvar", {3, 0, 0}}, {"getvar", {1, 0, 0}}, {"oref", {1, 0, 0}}, {"call", {4, 5, 0}},
@@ -1178,6 +1181,7 @@ static int c06_cmd (char *line)
   /* bookkeeping shared by both modes */
   if (!strcmp (t[0], "newarr") || !strcmp (t[0], "newmap") || !strcmp (t[0], "newcls") || !strcmp (t[0], "newbuf")
       || !strcmp (t[0], "newstr") || !strcmp (t[0], "newmstr") || !strcmp (t[0], "newfun") || !strcmp (t[0], "fill")
+      || !strcmp (t[0], "newffun")
       || !strcmp (t[0], "sappend") || !strcmp (t[0], "sjoin") || !strcmp (t[0], "sadd") || !strcmp (t[0], "schar")
       || !strcmp (t[0], "saddl") || !strcmp (t[0], "sadd2")
       || !strcmp (t[0], "srange"))
